@@ -29,8 +29,8 @@ theorem noCycleList_map {f : GoVal → GoVal} : (xs : List GoVal) → noCycleLis
     · exact h.1
     · exact noCycleList_map xs h.2 y hy
 
-theorem repList_map {mc : MCfg} {h : List HObj} {f : GoVal → GoVal} : (xs : List GoVal) → (∀ x ∈ xs, Rep mc h x (f x)) →
-    RepList mc h xs (xs.map f)
+theorem repList_map {mc : MCfg} {ρ : GoVal → GoVal} {h : List HObj} {f : GoVal → GoVal} : (xs : List GoVal) → (∀ x ∈ xs, Rep mc ρ h x (f x)) →
+    RepList mc ρ h xs (xs.map f)
   | [], _ => by simp [RepList]
   | x :: xs, hx => by
     simp only [List.map_cons, RepList]
@@ -46,8 +46,8 @@ theorem noCyclePairs_map {f : GoVal → GoVal} : (kvs : Entries) →
     · exact ⟨h.1.1, h.1.2⟩
     · exact noCyclePairs_map kvs h.2 kv hkv
 
-theorem repPairs_map {mc : MCfg} {h : List HObj} {f : GoVal → GoVal} : (kvs : Entries) →
-    (∀ kv ∈ kvs, Rep mc h kv.1 (f kv.1) ∧ Rep mc h kv.2 (f kv.2)) → RepPairs mc h kvs (kvs.map fun kv => (f kv.1, f kv.2))
+theorem repPairs_map {mc : MCfg} {ρ : GoVal → GoVal} {h : List HObj} {f : GoVal → GoVal} : (kvs : Entries) →
+    (∀ kv ∈ kvs, Rep mc ρ h kv.1 (f kv.1) ∧ Rep mc ρ h kv.2 (f kv.2)) → RepPairs mc ρ h kvs (kvs.map fun kv => (f kv.1, f kv.2))
   | [], _ => by simp [RepPairs]
   | (k, v) :: kvs, hx => by
     simp only [List.map_cons, RepPairs]
@@ -57,7 +57,7 @@ theorem repPairs_map {mc : MCfg} {h : List HObj} {f : GoVal → GoVal} : (kvs : 
 theorem rep_resolve (c : Cfg) (st : DState) (hinv : Inv (goCfg c) false st)
     (hxs : ∀ o ∈ st.heap, o.kind ≠ .list → o.xs = []) :
     ∀ (fuel : Nat) (v : GoVal), wfVal c false st.heap.length v = true → noCycle (resolveV st.heap fuel v) = true →
-      Rep (goCfg c) st.heap v (resolveV st.heap fuel v) := by
+      Rep (goCfg c) GoVal.ref st.heap v (resolveV st.heap fuel v) := by
   intro fuel
   induction fuel with
   | zero => intro v _ hn; simp [resolveV, noCycle] at hn
@@ -88,7 +88,7 @@ theorem rep_resolve (c : Cfg) (st : DState) (hinv : Inv (goCfg c) false st)
       simp only [wfVal_ref] at hv
       simp only [noCycle] at hn
       simp only [Rep]
-      exact ⟨p, rfl, ih p hv hn⟩
+      exact ⟨p, rfl, rfl, ih p hv hn⟩
     case href id =>
       split at hn
       · simp [noCycle] at hn
